@@ -328,7 +328,8 @@ func gen(r *lib.RNG) caseT {
 	}
 	fm := sb.String()
 	if r.Chance(1, 6) {
-		fm = lib.Pick(r, []string{"%Y-%m-%d %T", "%Y-%m-%d %r", "%Y%m%d%H%i%s", "%d/%m/%Y %H:%i:%s.%f", "%Y-%j %T"})
+		fm = lib.Pick(r, []string{"%Y-%m-%d %T", "%Y-%m-%d %r", "%Y%m%d%H%i%s", "%d/%m/%Y %H:%i:%s.%f", "%Y-%j %T",
+			"%H:%i:%s %d.%m.%Y", "%T %e/%c/%Y", "%k.%i.%S on %e-%c-%Y"})
 	}
 	if y < 1000 {
 		y += 1000
